@@ -59,6 +59,8 @@ def parseOp1 (s : String) : Option Op :=
   | ["mvarg"] => some .mvarg
   | ["nop"] => some .nop
   | ["obf"] => some .obf
+  | ["ret0"] => some .ret0
+  | ["ra", a, v] => (parseOid a).map (.ra · v)
   | _ => none
 
 /-- `ct,<op>` = catch (<op>) (one level) -/
